@@ -346,6 +346,10 @@ def run_cli(shard, ctx):
                 if old_agps:
                     ctx.count("cli:rerun-no-clobber-over-older-agp")
                     check_cli_case(cr, ctx, extra=["--no-clobber"])
+            if i % 5 == 1 and cli_runs.inflate_outputs(cr):
+                # the directory holds longer files of an earlier curation under the same names (default: overwrite)
+                ctx.count("cli:rerun-over-longer-files")
+                check_cli_case(cr, ctx)
             if i % 3 == 0 and rewrite_input_fasta(cr, rng):
                 cli_runs.clear_outputs(cr)
                 ctx.count("cli:rerun-after-fasta-rewritten-with-cache-mtime")
@@ -399,6 +403,7 @@ def gates(c, tier):
         "cli:rerun-after-fasta-rewritten-with-cache-mtime": 10,
         "cli:rerun-after-symlink-repointed": 10,
         "cli:two-haplotype-cases": 20,
+        "cli:rerun-over-longer-files": 10,
         "cli:cases-with-haplotig-slivers": 5,
         "cli:cases-with-sub-texel-contig-cut-in-two": 5,
     }
